@@ -498,7 +498,11 @@ class _:
     def run(a, ins, q, r):
         from dimarray.lib.stats import percentile
         return percentile(a, q, axis=tuple(r) if isinstance(r, list) else r)
-    def coq(q, r): raise Unsupported('percentile is checked by the oracle only (np.percentile is not modelled)')
+    def coq(q, r):
+        # Model/Transform.v qpercentile: linear interpolation between the order statistics, exact on rationals
+        qs = q if isinstance(q, list) else [q]
+        kk = 'i' if all(isinstance(x, int) for x in qs) else 'f'
+        return '(OPercentile %s %s %s %s)' % (cq_list([cq_q(x) for x in qs]), 'false' if isinstance(q, list) else 'true', cq_kind(kk), cq_axarg(r))
 
 @op('compare')
 class _:
